@@ -55,8 +55,45 @@ ENV_VARS = {
 }
 
 
-def make_env(hashseed: T.Union[int, str], envseed: int, listseed: T.Union[int, str]) -> T.Dict[str, str]:
+def prepare_ext(project_src: str, root: str) -> T.Tuple[T.Dict[str, str], T.List[str]]:
+    """Projects with a c06_ext.json link against libraries that exist outside the source tree: build them once per
+    history with gcc into distinct directories below <root>/ext, write their .pc files, and return the environment
+    additions (PKG_CONFIG_PATH) and the extra `meson setup` arguments (-D<option>=<root>/ext)."""
+    import json
+    f = os.path.join(project_src, EXT_FILE)
+    if not os.path.exists(f):
+        return {}, []
+    spec = json.load(open(f))
+    ext = os.path.join(root, 'ext')
+    pcdir = os.path.join(ext, 'pc')
+    if not os.path.isdir(pcdir):
+        os.makedirs(pcdir)
+        built: T.Dict[str, str] = {}
+        for lib in spec['libs']:
+            d = os.path.join(ext, lib['dir'])
+            os.makedirs(d, exist_ok=True)
+            c = os.path.join(d, lib['name'] + '.c')
+            with open(c, 'w') as fh:
+                fh.write(f'int {lib["name"]}_fn(void) {{ return 1; }}\n')
+            out = os.path.join(d, f'lib{lib["name"]}.so')
+            cmd = ['gcc', '-shared', '-fPIC', '-o', out, c] + [built[x] for x in lib['links']]
+            p = subprocess.run(cmd, stdout=subprocess.PIPE, stderr=subprocess.STDOUT)
+            if p.returncode != 0:
+                raise common.ToolFailure(f'could not build external library {lib["name"]}: {p.stdout[-300:]!r}')
+            os.unlink(c)
+            built[lib['name']] = out
+        for name, text in spec['pc'].items():
+            with open(os.path.join(pcdir, name + '.pc'), 'w') as fh:
+                fh.write(text.replace('@EXT@', ext))
+        for inc in ('inc_z', 'inc_a', 'inc_b'):
+            os.makedirs(os.path.join(ext, inc), exist_ok=True)
+    return {'PKG_CONFIG_PATH': pcdir}, [f'-D{spec["setup_option"]}={ext}']
+
+
+def make_env(hashseed: T.Union[int, str], envseed: int, listseed: T.Union[int, str],
+             extra: T.Optional[T.Dict[str, str]] = None) -> T.Dict[str, str]:
     items = dict(ENV_VARS)
+    items.update(extra or {})
     items['PATH'] = fakebin() + ':/usr/local/bin:/usr/bin:/bin'
     items['PYTHONPATH'] = SHIM + os.pathsep + common.REPO
     items['PYTHONHASHSEED'] = str(hashseed)
@@ -76,6 +113,7 @@ MODE_VARIANTS_EXEC = [0o755, 0o555, 0o700, 0o775, 0o750]
 MODE_VARIANTS_DIR = [0o755, 0o555, 0o750, 0o700]
 T_OLD = 1_577_836_800          # 2020-01-01
 PLAN_FILE = 'c06_plan.json'    # per project: {'quick_fresh': n} fresh configurations in the quick tier (default 4)
+EXT_FILE = 'c06_ext.json'      # per project: external shared libraries + .pc files the harness builds below <root>/ext
 MODES_FILE = 'c06_modes.json'  # per project: {relative path: "octal mode"}, applied in every run, not copied
 
 
@@ -123,7 +161,7 @@ def copy_tree(src: str, dst: str, treeseed: int, metaseed: int = 0) -> None:
                 alldirs.append(os.path.relpath(os.path.join(root, d), src))
         for f in sorted(fs):
             rel = os.path.relpath(os.path.join(root, f), src)
-            if rel not in (MODES_FILE, PLAN_FILE):
+            if rel not in (MODES_FILE, PLAN_FILE, EXT_FILE):
                 files.append(rel)
     forced: T.Dict[str, int] = {}
     mf = os.path.join(src, MODES_FILE)
@@ -257,11 +295,13 @@ def run_plan(project_src: str, root: str, steps: T.List[dict], extra_args: T.Seq
     source dir, the build dir, or an unrelated directory).  Returns one record per step:
        {'step':…, 'rc':…, 'log':…, 'snap': {rel: {...}}, 'before': snapshot before a reconfigure}"""
     real_src, src, build = layout(root, geom)
+    ext_env, ext_args = prepare_ext(project_src, root)
+    extra_args = list(extra_args) + ext_args
     elsewhere = os.path.join(root, 'elsewhere')
     os.makedirs(elsewhere, exist_ok=True)
     res: T.List[dict] = []
     for st in steps:
-        env = make_env(st['hashseed'], st['envseed'], st['listseed'])
+        env = make_env(st['hashseed'], st['envseed'], st['listseed'], ext_env)
         rec: T.Dict[str, T.Any] = {'step': st}
         cwdk = st.get('cwd', 'root')
         if geom == 'symlink' and cwdk == 'src':
